@@ -95,6 +95,33 @@ theorem proxy_connection_tokens_not_options :
     keys (removeHopByHop [(strBytes "Proxy-Connection", [strBytes "keep-alive, X-Custom"]), (strBytes "X-Custom", [strBytes "1"]),
       (strBytes "Keep-Alive", [strBytes "timeout=5, max=100"])]) = [strBytes "X-Custom"] := by decide
 
+/-- Removal is VALUE-INDEPENDENT: which keys survive depends only on the set of keys and on the
+`Connection` lines — never on what a hop-by-hop header carries (`TE: trailers`, `Upgrade: websocket`,
+`Proxy-Connection: keep-alive`, … are removed like any placeholder). `hbh_removed`, `hbh_fixed_removed`
+and the stack theorems already quantify over every header, hence over every value; this states it
+as an equation between two headers that differ in values only. -/
+theorem hbh_value_independent (h h' : Header) (hk : keys h = keys h')
+    (hc : index h kConnection = index h' kConnection) : keys (removeHopByHop h) = keys (removeHopByHop h') := by
+  have hr : removedKeys h = removedKeys h' := by unfold removedKeys connTokens; rw [hc]
+  have hf : ∀ (g : Header) (ks : List Bytes), keys (g.filter (fun e => !ks.contains e.1)) = (keys g).filter (fun k => !ks.contains k) := by
+    intro g ks
+    unfold keys
+    rw [List.filter_map]
+    rfl
+  rw [removeHopByHop_eq_filter, removeHopByHop_eq_filter, hf, hf, hk, hr]
+
+/-- Test (evaluation): `TE: trailers`, also Connection-listed, in three spellings of the value, does
+not reach the other side of the request stack; nor do the other fixed headers with real-world values. -/
+theorem realistic_values_removed :
+    let env : Env := ⟨1, 1, strBytes "martian", strBytes "00", strBytes "http", strBytes "h", strBytes "http://h/", strBytes "192.0.2.1:4711"⟩
+    keys (stackReq env [(strBytes "Te", [strBytes "trailers"])]).1.hdr = [kXFProto, kXFHost, kXFUrl, kXFF, kVia] ∧
+    keys (stackReq env [(kConnection, [strBytes "TE"]), (strBytes "Te", [strBytes "deflate, Trailers", strBytes "TRAILERS"])]).1.hdr =
+      [kXFProto, kXFHost, kXFUrl, kXFF, kVia] ∧
+    keys (removeHopByHop [(strBytes "Upgrade", [strBytes "websocket"]), (strBytes "Proxy-Connection", [strBytes "keep-alive"]),
+      (strBytes "Keep-Alive", [strBytes "timeout=5, max=100"]), (strBytes "Trailer", [strBytes "X-Foo"]),
+      (strBytes "Proxy-Authorization", [strBytes "Basic dXNlcjpwYXNz"]), (kTE, [strBytes "gzip, chunked"])]) = [] := by
+  decide
+
 /-- `ParsedKeys` is satisfiable by a header with oddly cased Connection tokens. -/
 example : ParsedKeys [(kConnection, [strBytes " KEEP-alive ,x-CUSTOM"]), (strBytes "X-Custom", [strBytes "1"]), (strBytes "Keep-Alive", [strBytes "timeout=5"])] := by
   intro k hk
